@@ -23,7 +23,8 @@ ASSUMPTIONS = ["monodisperse spherically symmetric models: sphere, core_shell_sp
                "q -> 0 equality is checked with error bound (q*size)^2"]
 REQUIRED_MONITORS = ["F1sq_le_F2", "I_equals_scale_F2_over_V", "lowq_equality_mono", "spherical_equality_mono",
                      "volume_sphere_mode", "modes_positive_finite"]
-REQUIRED_BUCKETS = {"quick": ["pd:off", "pd:on", "mesh>100", "mode:volume-sphere", "hollow", "lane:asan", "zero-default-length-switched-on", "mesh-crosses-validity-condition"]}
+REQUIRED_BUCKETS = {"quick": ["pd:off", "pd:on", "mesh>100", "mode:volume-sphere", "hollow", "lane:asan", "zero-default-length-switched-on", "mesh-crosses-validity-condition",
+                              "after-product-built-with-this-form-factor"]}
 REQUIRED_BUCKETS["thorough"] = REQUIRED_BUCKETS["quick"]
 SPHERICAL = ["sphere", "core_shell_sphere", "fuzzy_sphere", "core_multi_shell", "onion", "spherical_sld", "vesicle",
              "multilayer_vesicle"]
@@ -101,6 +102,21 @@ def run_case(case, rec):
     q = np.clip(np.sort(q), 1e-9, 5.0)
     model = sas.build(name)
     kernel = model.make_kernel([q])
+    if k % 3 == 0 and i.radius_effective_modes:
+        # the mode names of a form factor are its own: building a P@S product with it earlier in the process does
+        # not change which name selects which radius
+        from sasmodels import core as sascore
+        before_names = list(i.radius_effective_modes)
+        try:
+            sascore.load_model_info(name + "@hardsphere")
+            sascore.load_model_info(name + "@squarewell")
+        except Exception:
+            pass
+        after_names = list(sascore.load_model_info(name).radius_effective_modes or [])
+        rec.check("mode_names_unchanged_by_product", before_names == list(i.radius_effective_modes) == after_names,
+                  {"model": name, "before": before_names, "after_on_same_info": list(i.radius_effective_modes),
+                   "after_on_reloaded_info": after_names})
+        rec.bucket("after-product-built-with-this-form-factor")
     modes = i.radius_effective_modes or []
     mono = not (pd_on and meshn > 1)
     ctx = {"model": name, "pars": pars, "q": q}
